@@ -75,6 +75,20 @@ def run(cap, levels=5, collect=None):
             segs[k] = seg_lengths(psi, region.contours[ic], levels)
         return segs[k]
 
+    from ..gridutil import inbox
+
+    inb_cache = {}
+    nbox = [0]
+
+    def inb(region, ic):
+        """every point of this contour inside the box of the psi data (beyond it the interpolated psi is
+        clamped / periodic and the oracle cannot follow the flux surface: gridutil.psi_box)"""
+        k = (region.myID, ic)
+        if k not in inb_cache:
+            pts = contour_points(region.contours[ic])
+            inb_cache[k] = bool(np.all(inbox(eq, pts[:, 0], pts[:, 1], margin=1e-3)))
+        return inb_cache[k]
+
     rel_c, rel_y, rel_join = [], [], []
     chord = []
     wh = {"worst": 0.0, "where": None}
@@ -90,6 +104,9 @@ def run(cap, levels=5, collect=None):
             nrow = hyc.shape[0]
             for i in range(nrow):
                 ic = 2 * i + off
+                if not inb(region, ic):
+                    nbox[0] += 1
+                    continue
                 s = S(region, ic)
                 chord.append(chord_error_estimate(region.contours[ic], s, Nfine))
                 arc_c = s[0::2] + s[1::2]  # face j -> face j+1
@@ -100,14 +117,16 @@ def run(cap, levels=5, collect=None):
                 arc_y = s[1:-1:2] + s[2::2]  # centre j-1 -> centre j, j=1..ny-1
                 rel_y.append(np.abs(hyy[i, 1:-1] * dy / arc_y - 1.0))
                 up = region.connections["upper"]
-                if up is not None:
+                if up is not None and inb(mesh.regions[up], ic):
                     su = S(mesh.regions[up], ic)
                     rel_join.append(np.abs(hyy[i, -1] * dy / (s[-1] + su[0]) - 1.0))
                 lo = region.connections["lower"]
-                if lo is not None:
+                if lo is not None and inb(mesh.regions[lo], ic):
                     sl = S(mesh.regions[lo], ic)
                     rel_join.append(np.abs(hyy[i, 0] * dy / (s[0] + sl[-1]) - 1.0))
     out.append(rec("hy>0 (all locations)", cls, npos, nneg, 0))
+    if nbox[0]:
+        out.append(rec("informational: contours with points outside the psi data box left out of the arc-length oracles", cls + "|outside-box", nbox[0], 0, 0))
     for name, lst, in (("hy*dy=arc(face,face) centre/xlow", rel_c), ("hy*dy=arc(centre,centre) interior y-faces", rel_y), ("hy*dy=arc across region joins", rel_join)):
         if not lst:
             continue
@@ -138,6 +157,9 @@ def run(cap, levels=5, collect=None):
             nrow = getattr(chain[0].poloidal_distance, loc_c).shape[0]
             for i in range(nrow):
                 ic = 2 * i + off
+                if not all(inb(r, ic) for r in chain):
+                    nbox[0] += 1
+                    continue
                 tot = sum(float(np.sum(S(r, ic)[r.contours[ic].startInd : (r.contours[ic].endInd if r.contours[ic].endInd >= 0 else len(r.contours[ic]) + r.contours[ic].endInd)])) for r in chain)
                 prev_last = None
                 for k, region in enumerate(chain):
